@@ -14,7 +14,7 @@ META = {
     "text": "Coq theorems, for every oracle (= every outcome of the floating-point predicates) and every polygon set without empty contours: the ported EarClip "
             "(Link, ClipEar with the topological-degenerate filter, recursive ClipIfDegenerate, Loop, FindStart, CutKeyhole/JoinPolygons, TriangulatePoly with the empty-queue fallback) "
             "TERMINATES without undefined behaviour once fuel >= 2(V+2*contours)+4 (earclip_terminates) and its triangles satisfy the chain identity "
-            "(every input edge once in its direction, every other edge cancelled by its reverse), use only input indices, #triangles+#filtered = #ClipEar = V+2*joins-#live "
+            "(every input edge once in its direction, every other edge cancelled by its reverse), use only input indices, #triangles+#filtered = V-2+2h-2(o-1) (earclip_count) "
             "(earclip_chain, earclip_total_correctness): proved with a ghost ring decomposition (labels preserved along left/right, one circular list per label, Loop visits exactly its ring, "
             "holes/outers/simples in pairwise different rings until JoinPolygons merges two), so the former run-time side conditions nbad = 0 / rings_closed are now theorems. "
             "TriangulateConvex satisfies the same identities for every contour length (zig-zag induction). The area identity is a corollary of the chain identity. "
@@ -286,6 +286,70 @@ def valid_input(polys):
     return True
 
 
+KPRECISION = 1e-12          # manifold's kPrecision: epsilon = bBox.Scale() * kPrecision when epsilon < 0
+OFFSETS = [10 ** 3, 10 ** 6, 10 ** 7, 10 ** 8, 10 ** 9, 3 * 10 ** 9, 10 ** 10]
+
+
+def min_feature(polys):
+    """Smallest non-zero edge length / vertex altitude over all contours (exact, as float)."""
+    best = None
+    for p in polys:
+        pts = []
+        for (_, x, y) in p:
+            if not pts or pts[-1] != (x, y):
+                pts.append((x, y))
+        if len(pts) > 1 and pts[0] == pts[-1]:
+            pts.pop()
+        n = len(pts)
+        for i in range(n):
+            a, b, c = pts[i - 1], pts[i], pts[(i + 1) % n]
+            ab2 = (Fraction(b[0]) - Fraction(a[0])) ** 2 + (Fraction(b[1]) - Fraction(a[1])) ** 2
+            ac2 = (Fraction(c[0]) - Fraction(a[0])) ** 2 + (Fraction(c[1]) - Fraction(a[1])) ** 2
+            cr = (Fraction(b[0]) - Fraction(a[0])) * (Fraction(c[1]) - Fraction(a[1])) - \
+                 (Fraction(b[1]) - Fraction(a[1])) * (Fraction(c[0]) - Fraction(a[0]))
+            cands = [math.sqrt(ab2)] if ab2 else []
+            if cr != 0 and ac2 != 0:
+                cands.append(abs(float(cr)) / math.sqrt(ac2))      # altitude of b over ac
+            for v in cands:
+                if v > 0 and (best is None or v < best):
+                    best = v
+    return best or 0.0
+
+
+def transform_case(rng, c, cid):
+    """Translation / scale stratum: the same polygon set scaled by an exact power of two and moved by
+    exact integer offsets (both axes, both signs), as far from the origin as keeps the smallest feature
+    >= 200 epsilon (epsilon = max|coordinate| * kPrecision).  Every coordinate stays exactly representable
+    (checked), so the shapes are unchanged and tri_check's exact arithmetic applies."""
+    k = rng.choice([-20, -10, -3, 0, 0, 0, 3, 10, 20])
+    sc = Fraction(2) ** k
+    feat = min_feature(c["polys"]) * float(sc)
+    ext = max(max(abs(x), abs(y)) for p in c["polys"] for (_, x, y) in p) * float(sc)
+    allowed = [m for m in OFFSETS if (m * float(sc) + ext) * KPRECISION * 200 <= feat]
+    if not allowed:
+        m = 0
+    else:
+        m = rng.choice(allowed[-3:])          # prefer the far ones
+    sx, sy = rng.choice([(1, 0), (0, 1), (1, 1), (-1, 1), (1, -1), (-1, -1), (1000, 731), (731, -1000)])
+    tx = Fraction(m * sx, 1000 if abs(sx) > 1 else 1) * sc
+    ty = Fraction(m * sy, 1000 if abs(sy) > 1 else 1) * sc
+    out = []
+    for p in c["polys"]:
+        q = []
+        for (i, x, y) in p:
+            nx, ny = Fraction(x) * sc + tx, Fraction(y) * sc + ty
+            fx, fy = float(nx), float(ny)
+            if Fraction(fx) != nx or Fraction(fy) != ny or math.isinf(fx) or math.isinf(fy):
+                return None                   # not exactly representable: keep the untransformed case
+            q.append((i, fx, fy))
+        out.append(q)
+    d = dict(c)
+    d["polys"] = out
+    d["tag"] = c["tag"] + "@far"
+    d["xform"] = {"scale_log2": k, "offset": [float(tx), float(ty)]}
+    return d
+
+
 def gen_case(rng, cid, big):
     fam = cid % 12 if cid >= 12 else cid
     polys, tag = [], ""
@@ -493,7 +557,7 @@ def run(cx):
         "geometric decisions of EarClip (degenerate test, hole/outer classification, keyhole connector, ear order, queue membership) are oracles: arbitrary functions of the whole state; theorems hold for all of them",
         "not proved: every triangle is CCW within epsilon for epsilon-valid input (depends on floating ear costs) - decided per output by the proved-sound exact checker tri_check",
         "the ghost conditions nbad = 0 / rings_closed are proved for every oracle (earclip_chain); the check still evaluates them on every replayed run as a cross-check of the model against the implementation's final polygon_",
-        "earclip_count_partial: the closed formula V-2+2h-2(o-1) still takes the number of remaining rings (nlive = 2*o) as a hypothesis; the unconditional statement proved is #triangles + #filtered = V + 2*joins - #live",
+        "earclip_count is proved as #triangles + #filtered = V-2+2h-2(o-1) with h = joins, o = contours - joins; that nothing is filtered and that every hole finds an outer for epsilon-valid input is geometry, decided per output by tri_check's count",
         "v->ear iterator validity is modelled as queue membership; hash pairing of HalfedgeTriangulation is checked on outputs (reciprocal, swapped endpoints), not modelled",
         "doubles are scaled to integers exactly (common power of two) by checks/C10.py; tolerance (2*eps)^2 rounded up",
     ]
@@ -532,6 +596,10 @@ def run(cx):
     discarded = 0
     for cid in range(ncase):
         c = gen_case(rng, cid, True)
+        if c["polys"] and cid >= 12 and cid % 5 in (1, 3):
+            t = transform_case(rng, c, cid)
+            if t is not None:
+                c = t
         if c["polys"] and valid_input(c["polys"]):
             cases.append(c)
         else:
